@@ -19,7 +19,7 @@ func (c12) NumCases(tier string) int {
 	if tier == "thorough" {
 		return 400_000
 	}
-	return 4_000
+	return 5_500
 }
 
 func (c12) Describe() CheckInfo {
